@@ -383,3 +383,32 @@ impl LongTokens {
         buf.push('x');
     }
 }
+
+/// line comments made of a run of one punctuation character (separator lines and near misses):
+/// `//` or `///`, the character 1..=12 times, 0..=2 trailing blanks of two kinds, optional text
+pub struct Separators;
+const SEP_CHARS: [&str; 8] = ["-", "=", "*", "/", "#", "_", "~", "."];
+impl Separators {
+    pub fn len(&self) -> u64 {
+        (2 * SEP_CHARS.len() * 12 * 5 * 3) as u64
+    }
+    pub fn get(&self, mut idx: u64, buf: &mut String) {
+        let mut pick = |n: u64| {
+            let v = idx % n;
+            idx /= n;
+            v as usize
+        };
+        let slashes = ["//", "///"][pick(2)];
+        let ch = SEP_CHARS[pick(SEP_CHARS.len() as u64)];
+        let n = pick(12) + 1;
+        let trail = ["", " ", "  ", "\t", " \t "][pick(5)];
+        let place = pick(3);
+        buf.clear();
+        let c = format!("{slashes}{}{trail}", ch.repeat(n));
+        match place {
+            0 => buf.push_str(&format!("{c}\na;\n")),
+            1 => buf.push_str(&format!("begin\n  a; {c}\n  b;\nend;\n")),
+            _ => buf.push_str(&format!("type\n  T = class\n    {c}\n    f: T;\n  end;\n")),
+        }
+    }
+}
